@@ -211,7 +211,15 @@ def _zoo_sequence(prop, rec):
     return sa == sb, f"{rec['seed_a']} -> {sa[:120]!r}; then {rec['seed_b']} -> {sb[:120]!r}"
 
 
+def _c13_long(prop, rec):
+    from . import zoo
+
+    ok, ncls = zoo.long_chain_job(rec["n"])
+    return not ok, f"O-(C){rec['n'] - 1}: {ncls} classes, equitable={ok}"
+
+
 REPLAYERS = {
+    "c13-long-chain": _c13_long,
     "zoo-sequence": _zoo_sequence,
     "e1-sequence": _e1_sequence,
     "e1-c12-derived": _e1_c12_derived,
